@@ -40,6 +40,11 @@ let handle line =
     let sigma = next_list st next_str in
     let tau = next_list st next_str in
     print_collected (discover_sched base t excl user (analyse_of tbl) threaded sigma tau)
+  | "G" -> let bc = next_list st next_str in
+    let ecs = next_list st (fun st -> next_list st next_str) in
+    let user = next_list st next_str in
+    let t = next_tree st in
+    (if root_guardb ecs user bc t then "1" else "0") ^ " " ^ (if alignedb ecs bc t then "1" else "0")
   | "B" -> let s = next_str st in cl_hex (basename s) ^ " " ^ (if is_test_dir s then "1" else "0")
   | c -> failwith ("bad command " ^ c)
 
